@@ -88,10 +88,14 @@ func init() {
 		c.Bounds["interleavings"] = fmt.Sprintf("%d merges of two 3-call sequences (init, parse, execute+print/error) of two instances; same parser type and two different parser packages; input lengths (2,3),(3,2),(3,3)", len(orders))
 		c.Bounds["outside"] = "this is a non-interference argument (disjoint write footprints => every schedule is equivalent to a sequential one), not scheduler exploration; Go runtime, fmt internals and os.Stdout are outside"
 		return smallFamily(c, nS), &GramSpec{
-			Variants: []string{"d", "i"},
+			Variants:   []string{"d", "i", "n"},
+			RaceReplay: true,
 			Entries: func(gg *GenGrammar) []EntrySpec {
 				es := []EntrySpec{{Name: "C14same", Params: "n1, n2, order int", Body: "hl.C14(G, vd.New, vd.New, HASACT, n1, n2, order, NSW)"}}
 				es = append(es, EntrySpec{Name: "C14shared", Params: "n1, n2, order int", Body: "mk := vd.NewShared(8); hl.C14(G, mk, mk, HASACT, n1, n2, order, NSW)"})
+				if gg.OK("n") {
+					es = append(es, EntrySpec{Name: "C14noast", Params: "n1, n2, order int", Body: "hl.C14(G, vn.New, vn.New, HASACT, n1, n2, order, NSW)"})
+				}
 				if gg.OK("i") {
 					es = append(es, EntrySpec{Name: "C14diff", Params: "n1, n2, order int", Body: "hl.C14(G, vd.New, vi.New, HASACT, n1, n2, order, NSW)"})
 				}
@@ -105,6 +109,9 @@ func init() {
 					}
 					jobs = append(jobs, &Job{Entry: "C14diff", Args: []int{2, 2, o}})
 					jobs = append(jobs, &Job{Entry: "C14shared", Args: []int{2, 3, o}})
+					if !c.Quick() || o == orders[0] || o == orders[len(orders)-1] {
+						jobs = append(jobs, &Job{Entry: "C14noast", Args: []int{3, 2, o}})
+					}
 				}
 				return jobs
 			},
